@@ -336,3 +336,25 @@ def build(repo, canary=False, arities=None):
         A.text('}\n', 'impl close')
     A.text('} // verus!\nfn main() {}\n', 'footer')
     return A
+
+
+CLIENT_CONTRACTS = {'new': C_NEW, 'insert': C_INSERT, 'contains': C_CONTAINS, 'remove': C_REMOVE, 'is_empty': C_IS_EMPTY, 'clear': C_CLEAR}
+
+
+def declarations(A, repo, arities):
+    """contract-only declarations of PrefixTreeN for client units (GEN): same contract text as proved above"""
+    from units.wbapi import declaration
+    src = Source(os.path.join(repo, FILE))
+    A.spec(os.path.join(SPECD, 'pt.rs'))
+    for n in arities:
+        nm = 'PrefixTree%d' % n
+        A.text('#[verifier::external_body]\npub struct %s { x: u32 }\n' % nm, nm + ' declared opaque')
+        A.text('impl %s {\n    pub uninterp spec fn view(&self) -> ISet<Seq<u32>>;\n    pub uninterp spec fn wf(&self) -> bool;\n'
+               '    /// every tuple of the view has length %d (unit PT: by definition of view)\n'
+               '    #[verifier::external_body]\n    pub proof fn lemma_len(&self, t: Seq<u32>) requires self@.contains(t) ensures t.len() == %d {}\n' % (nm, n, n),
+               'abstract view (uninterpreted here)')
+        for fn, c in CLIENT_CONTRACTS.items():
+            it, _ = src.fn_in_impls(r'impl PrefixTree%d\s*\{' % n, nm, fn)
+            it.pattern_params()
+            A.text(declaration(it, c[0], c[1]), 'contract-only declaration of %s::%s' % (nm, fn))
+        A.text('}\n', 'impl close')
